@@ -31,6 +31,8 @@ def run_sessions(run, specs, oracle=None, relevant=0xFF, model_verify=True, jobs
                 run.violation("verifier used external randomness (transcript RNG finalised with non-zero bytes)", {"kind": "session", "spec": strip(s), "verify": vi})
         if model_verify and o.get("group") == "fm":
             for vi in range(len(s.get("verifies", []))):
+                if s["verifies"][vi].get("log") is False or s.get("log_merlin") is False or s.get("log_msm") is False:
+                    continue
                 t, info = vmodel.verify_terms(s, o, vi)
                 if t is None:
                     continue
@@ -53,17 +55,24 @@ def run_sessions(run, specs, oracle=None, relevant=0xFF, model_verify=True, jobs
     nrep = 0
     for i, code in sorted(bad.items()):
         m = meta[i]
-        code_rel = code & relevant if len(m) == 3 and not isinstance(m[1], str) else code
+        s, vi, j = m
+        is_prover = isinstance(vi, str)
+        code_rel = code if is_prover else code & relevant
         if not code_rel:
             continue
-        s, vi, j = m
         nrep += 1
         if nrep > max_report:
             break
         run.corr_broken.append((s, vi, code_rel))
-        what = vmodel.explain(code_rel) if not isinstance(vi, str) else f"{vi}: code {code}"
-        run.violation(f"model and implementation disagree on: {what} (session {s.get('id')}, verification {vi}, chunk {j})",
-                      {"kind": "session", "spec": strip(s), "verify": vi, "code": code, "correspondence": "Exec/VerifyExec.chk_verify"},
+        if is_prover:
+            from lib import pmodel
+            what = "prover: " + pmodel.pexplain(code_rel)
+            corr = "Exec/ProveExec.chk_prove"
+        else:
+            what = vmodel.explain(code_rel)
+            corr = "Exec/VerifyExec.chk_verify"
+        run.violation(f"model and implementation disagree on: {what} (session {s.get('id')}, {'member' if is_prover else 'verification'} {j if is_prover else vi})",
+                      {"kind": "session", "spec": strip(s), "verify": vi, "code": code, "correspondence": corr},
                       no_input=True)
     return obs
 
